@@ -54,6 +54,9 @@ type Unit struct {
 	sDecl          map[string]bool // struct keys declared
 	fresh          int
 	lits           map[string]Term
+	litVal         map[string]string // literal constant name -> its text
+	havocSeq       int
+	havocMemo      map[string]Term
 	obs            map[string]*Oblig
 	obSeq          []string
 	ordCnt         map[string]int
@@ -242,6 +245,10 @@ func (u *Unit) StrLit(v string) Term {
 	name := fmt.Sprintf("lit!%d", len(u.lits))
 	t := u.Const(name, SStr)
 	u.lits[v] = t
+	if u.litVal == nil {
+		u.litVal = map[string]string{}
+	}
+	u.litVal[name] = v
 	u.Axiom(Eq(App("slen", SInt, t), IntLit(int64(len(v)))))
 	for i := 0; i < len(v) && i < 96; i++ {
 		u.Axiom(Eq(App("sat", SInt, t, IntLit(int64(i))), IntLit(int64(v[i]))))
